@@ -2,7 +2,7 @@
 From Coq Require Import ZArith List Bool.
 From Coq Require Import Permutation Sorted.
 From CTM Require Import Base.Sx Model.Tree Model.Vote Model.Election Proofs.VoteP Proofs.VoteMainP Proofs.ConfidenceP
-     Proofs.ChooseP Proofs.ElectionP Proofs.RtaShapeP.
+     Proofs.ChooseP Proofs.ElectionP Proofs.RtaShapeP Model.VoteDecide Proofs.VoteDecideP.
 Import ListNotations.
 Open Scope Z_scope.
 
@@ -29,6 +29,24 @@ Theorem c03_choose_node_contract :
    (wv + nsum (map snd rs))%nat = iters).
 Proof. exact choose_contract. Qed.
 Print Assumptions c03_choose_node_contract.
+
+(* ... and that is what every record of the modelled vote is: whatever the reference rows, the query
+   row, the drawn subsets and the number of runners-up, the record built by the vote
+   (Model/VoteDecide.v:vote_record = tally, aggregate, sort by votes, choose_node) names an outcome
+   the acceptor accepts for the recomputed votes, with probability = votes / iterations *)
+Theorem c03_vote_record_accepted :
+  forall (cell : Type) (refs_at : option (nat * node) -> list vec) (owners_at : option (nat * node) -> list Z)
+         (q_at : cell -> option (nat * node) -> vec) (n_assign : nat) (corr_at : cell -> option (nat * node) -> Z -> frac),
+    (1 <= n_assign)%nat ->
+    forall p kids subsets c r winners,
+      NoDup kids ->
+      vote_record cell refs_at owners_at q_at n_assign corr_at p kids subsets c = Some r ->
+      tally (q_at c p) (refs_at p) subsets = Some winners ->
+      exists wv rs, check_choice kids (votes_for (owners_at p) winners) n_assign (asg r) wv rs = true /\
+                    prob r = (Z.of_nat wv, Z.of_nat (length subsets)) /\
+                    map (fun x => fst (fst x)) (runners r) = map fst rs.
+Proof. exact vote_record_accepted. Qed.
+Print Assumptions c03_vote_record_accepted.
 
 (* the same clauses for any outcome the acceptor accepts (this is what is evaluated on the
    records the real code reports) *)
